@@ -10,6 +10,7 @@ impl<'input, I: Iterator<Item = char> + Clone, T, S, E, W> Lexer<'input, I, T, S
     /// verification-only (exists only in the scratch copy): place the lexer at a symbolic base location
     pub fn __verif_set_locs(&mut self, base: Loc) { self.iter_loc = base; self.current_match_start = base; self.current_match_end = base; }
     pub fn __verif_last_match_is_none(&self) -> bool { self.last_match.is_none() }
+    pub fn __verif_user_state(&self) -> &S { &self.user_state }
 }
 '''
 
